@@ -23,6 +23,7 @@ def main():
     ap.add_argument("--jobs", type=int, default=None)
     a = ap.parse_args()
     seed = int(os.environ.get("VERIF_SEED", "0") or 0)
+    os.environ["VERIF_TIER_EFFECTIVE"] = a.tier  # contract modules may add expensive contracts in the thorough tier (inherited by the worker processes)
     repo = os.path.abspath(a.repo)
     # the repository under check shadows the installed package for everything imported from here on (constants, cstruct layouts)
     sys.path.insert(0, repo)
